@@ -44,15 +44,40 @@ fn tidy(n: &mut ANode) {
             e.children.clear();
         }
         if is_raw_text(&e.name) {
-            // raw text elements hold text only, and text that cannot close the element early
-            let mut t = String::new();
-            for c in &e.children {
-                if let ANode::Text(s) = c {
-                    t.push_str(s);
+            if e.children.iter().any(|c| matches!(c, ANode::Element(_))) {
+                // script / style WITH element children (HTML has no such thing, xot's tree has):
+                // direct text stays raw, text further down must be escaped again. To keep the
+                // output tokenizable the direct text holds no '<', and no raw-text element nests.
+                fn no_nested_raw(n: &mut ANode) {
+                    if let ANode::Element(e) = n {
+                        if is_raw_text(&e.name) {
+                            e.name.local = format!("x-{}", e.name.local);
+                        }
+                    }
+                    if let Some(ch) = n.children_mut() {
+                        for c in ch.iter_mut() {
+                            no_nested_raw(c);
+                        }
+                    }
                 }
+                e.children.retain(|c| matches!(c, ANode::Element(_) | ANode::Text(_)));
+                for c in e.children.iter_mut() {
+                    match c {
+                        ANode::Text(t) => *t = t.replace('<', "("),
+                        other => no_nested_raw(other),
+                    }
+                }
+            } else {
+                // raw text elements hold text only, and text that cannot close the element early
+                let mut t = String::new();
+                for c in &e.children {
+                    if let ANode::Text(s) = c {
+                        t.push_str(s);
+                    }
+                }
+                let t = t.replace("</", "< /");
+                e.children = if t.is_empty() { vec![] } else { vec![ANode::Text(t)] };
             }
-            let t = t.replace("</", "< /");
-            e.children = if t.is_empty() { vec![] } else { vec![ANode::Text(t)] };
         }
     }
     if let Some(ch) = n.children_mut() {
@@ -147,7 +172,6 @@ impl<'a> Al<'a> {
                 }
                 self.open.push(name.clone());
                 if is_raw_text(&e.name) {
-                    let want: String = e.children.iter().map(|c| c.string_value()).collect();
                     let got = match self.toks.get(self.i) {
                         Some(Tok::CData(t)) if t.starts_with("\u{0}RAW") => {
                             self.i += 1;
@@ -155,8 +179,21 @@ impl<'a> Al<'a> {
                         }
                         _ => String::new(),
                     };
-                    if !self.indent && got != want {
-                        return Err(format!("raw text of <{}> is {:?}, the text is {:?}", name, got, want));
+                    if e.children.iter().any(|c| matches!(c, ANode::Element(_))) {
+                        // element children inside script / style: read the raw content as markup
+                        // again; only the direct text children are raw
+                        let toks = htmltok::tokenize(&got, &|_, _| false).map_err(|er| format!("content {:?} of <{}> cannot be tokenized: {}", got, name, er))?;
+                        let mut sub = Al { toks: &toks, i: 0, indent: self.indent, cdata: self.cdata, open: vec![] };
+                        sub.children(&e.children, Some(e), &inner).map_err(|er| format!("inside <{}>: {}", name, er))?;
+                        sub.skip_ws();
+                        if sub.i != toks.len() {
+                            return Err(format!("inside <{}>: surplus output {:?}", name, &toks[sub.i..]));
+                        }
+                    } else {
+                        let want: String = e.children.iter().map(|c| c.string_value()).collect();
+                        if !self.indent && got != want {
+                            return Err(format!("raw text of <{}> is {:?}, the text is {:?}", name, got, want));
+                        }
                     }
                 } else {
                     self.children(&e.children, Some(e), &inner)?;
@@ -174,10 +211,17 @@ impl<'a> Al<'a> {
             ANode::Text(t) => {
                 // consecutive Text / CDATA tokens make up the text
                 let in_cdata_element = parent.map(|p| self.cdata.contains(&p.name)).unwrap_or(false);
+                let raw_parent = parent.map(|p| is_raw_text(&p.name)).unwrap_or(false);
                 let mut got = String::new();
                 let mut any = false;
                 loop {
                     match self.toks.get(self.i) {
+                        Some(Tok::Text(raw)) if raw_parent => {
+                            // direct text child of script / style: written as it is
+                            got.push_str(raw);
+                            self.i += 1;
+                            any = true;
+                        }
                         Some(Tok::Text(raw)) => {
                             if !htmltok::ampersands_ok(raw) {
                                 return Err(format!("a raw '&' from text outside script/style/CDATA: {:?}", raw));
@@ -266,7 +310,7 @@ impl Property for C19 {
     }
     fn assumptions(&self) -> Vec<&'static str> {
         vec![
-            "void elements are generated without children and script/style with text-only content not containing '</' (HTML's own content model)",
+            "void elements are generated without children; script/style hold either text only (not containing '</') or text and elements, in which case the direct text holds no '<', comments and PIs are dropped and no script/style nests inside (so that the output stays tokenizable); text below an element child of script/style must be escaped again (HTML serialisation algorithm: only text whose PARENT is script/style is raw)",
             "names that are void only in HTML 4 (basefont, frame, isindex) or removed (keygen, command) are not generated",
         ]
     }
@@ -362,13 +406,6 @@ impl Property for C19 {
         }
         add_bool(&mut doc, src);
         let mut xot = Xot::new();
-        let was = false;
-        let _ = was;
-        let mut hs = vec![];
-        let root = match bridge::build(&mut xot, &doc, &mut hs) {
-            Ok(r) => r,
-            Err(e) => return Verdict::Fail(format!("harness: {}", e)),
-        };
         let mut names = vec![];
         element_names(&doc, &mut names);
         let pick = |src: &mut Src| -> Vec<QName> {
@@ -381,6 +418,51 @@ impl Property for C19 {
         let cdata_q = pick(src);
         let suppress_q = pick(src);
         let indent = src.ratio(1, 3);
+        // drawn after every earlier decision (saved cases keep their meaning): rename one HTML
+        // element to a name HTML treats as raw text / RCDATA but xot must not (the statement
+        // allows raw '<' and '&' only inside script and style)
+        const RAWISH: &[&str] = &["iframe", "xmp", "noembed", "noframes", "plaintext", "noscript", "IFRAME", "Xmp", "textarea", "title", "template"];
+        if src.ratio(1, 4) {
+            fn count(n: &ANode) -> usize {
+                let own = match n {
+                    ANode::Element(e) if (e.name.ns.is_empty() || e.name.ns == XHTML) && !is_void(&e.name) && !is_raw_text(&e.name) => 1,
+                    _ => 0,
+                };
+                own + n.children().iter().map(count).sum::<usize>()
+            }
+            fn rename(n: &mut ANode, k: &mut usize, to: &str) {
+                if let ANode::Element(e) = n {
+                    if (e.name.ns.is_empty() || e.name.ns == XHTML) && !is_void(&e.name) && !is_raw_text(&e.name) {
+                        if *k == 0 {
+                            e.name.local = to.to_string();
+                            *k = usize::MAX;
+                            return;
+                        }
+                        *k -= 1;
+                    }
+                }
+                if let Some(ch) = n.children_mut() {
+                    for c in ch.iter_mut() {
+                        if *k == usize::MAX {
+                            return;
+                        }
+                        rename(c, k, to);
+                    }
+                }
+            }
+            let total = count(&doc);
+            if total > 0 {
+                let mut k = src.choice_big(total);
+                let to = RAWISH[src.choice(RAWISH.len())];
+                rename(&mut doc, &mut k, to);
+                ctx.label("rawish_element_name");
+            }
+        }
+        let mut hs = vec![];
+        let root = match bridge::build(&mut xot, &doc, &mut hs) {
+            Ok(r) => r,
+            Err(e) => return Verdict::Fail(format!("harness: {}", e)),
+        };
         let cdata: Vec<NameId> = cdata_q.iter().map(|q| name_id(&mut xot, q)).collect();
         let suppress: Vec<NameId> = suppress_q.iter().map(|q| name_id(&mut xot, q)).collect();
         let params = Parameters {
